@@ -40,6 +40,8 @@ class Path(object):
         self.notes = []
         self.steps = 0
         self.locals = {}           # scratch for front ends (per-path tables)
+        from . import terms as _terms
+        _terms.reset_bounds_memo()
 
     # -- variables -------------------------------------------------------------------------------------
     @property
